@@ -59,6 +59,14 @@ type FuncContract struct {
 	Skip        bool     // under contract for callers only (body not verified); listed as assumed
 	Sweep       bool     // annotation-free safety sweep only
 	Opts        map[string]string
+	ReplayTmpl  string
+	ReplayVals  []ReplayVal
+}
+
+type ReplayVal struct {
+	Name string
+	Expr SExpr
+	Src  string
 }
 
 type TypeContract struct {
@@ -101,7 +109,7 @@ var clauseKeywords = map[string]bool{
 	"func": true, "type": true, "tags": true, "mode": true, "requires": true, "modifies": true, "ensures": true,
 	"loop": true, "at": true, "ghost": true, "invariant": true, "pure": true, "axiom": true, "lemma": true,
 	"trusted": true, "panics": true, "noreturn": true, "params": true, "results": true, "skip": true, "sweep": true,
-	"ifaceghost": true, "assume-text": true, "opt": true, "smt": true,
+	"ifaceghost": true, "assume-text": true, "opt": true, "smt": true, "replay": true,
 }
 
 var labelRe = regexp.MustCompile(`^\[([A-Za-z0-9_.\-]+)\]\s*`)
@@ -402,6 +410,30 @@ func (c *Contracts) loadFile(path, pkg string, trusted bool) error {
 				c.Axioms = append(c.Axioms, cl)
 			} else {
 				c.Lemmas = append(c.Lemmas, cl)
+			}
+		case "replay":
+			if curF == nil {
+				return fmt.Errorf("%s:%d: replay outside func", path, rc.line)
+			}
+			fs := strings.SplitN(rc.text, " ", 2)
+			if len(fs) < 2 {
+				return fmt.Errorf("%s:%d: bad replay clause", path, rc.line)
+			}
+			switch fs[0] {
+			case "template":
+				curF.ReplayTmpl = strings.TrimSpace(fs[1])
+			case "val":
+				i := indexTopAssign(fs[1])
+				if i < 0 {
+					return fmt.Errorf("%s:%d: replay val needs '='", path, rc.line)
+				}
+				ex, err := parseSpec(strings.TrimSpace(fs[1][i+1:]))
+				if err != nil {
+					return fmt.Errorf("%s:%d: %v", path, rc.line, err)
+				}
+				curF.ReplayVals = append(curF.ReplayVals, ReplayVal{Name: strings.TrimSpace(fs[1][:i]), Expr: ex, Src: fs[1]})
+			default:
+				return fmt.Errorf("%s:%d: bad replay clause", path, rc.line)
 			}
 		case "assume-text":
 			c.Assumes = append(c.Assumes, rc.text)
